@@ -7,7 +7,8 @@ Open Scope Z_scope.
 
 (* Python exception classes; [Unsupported] is not an exception: it marks inputs on which
    the model declines to predict (the result leaves the exact-rational domain). *)
-Inductive exn := ValueError | TypeError | IndexError | ZeroDivisionError | RecursionError | UserError (id : nat) | Unsupported.
+Inductive exn := ValueError | TypeError | IndexError | ZeroDivisionError | RecursionError | UserError (id : nat) | Unsupported
+  | TypeCheck.   (* the runtime type-checker's violation error (beartype) *)
 Inductive res (A : Type) := Ok (a : A) | Err (e : exn).
 Arguments Ok {A} _.
 Arguments Err {A} _.
